@@ -2,9 +2,11 @@
 C29 — requests survive primary connection loss without duplicate execution.
 
 Property theorems only, over the composed model `TdModel/Model/C29.lean` with the configuration
-regenerated from `telegram/invoke.go`, `telegram/client.go` and `rpc/engine.go`, for ANY number of
-requests, ANY number of connection epochs and ANY order of the events (sends, acknowledgements,
-results, kills at every protocol step, reconnects, close).
+regenerated from `telegram/invoke.go`, `telegram/client.go`, `telegram/internal/manager/conn.go` and
+`rpc/engine.go` (part of it interpreted in Lean from regenerated statement-order lists), for ANY number
+of requests, ANY number of connection epochs and ANY order of the events (binding to a connection,
+initialisation, writes, acknowledgements, results, kills at every protocol step — also of a replacement
+connection that is not yet initialised —, fail-over, reconnects, close).
 -/
 import TdModel.Lemmas.C29c
 
@@ -12,11 +14,16 @@ namespace TdModel.C29
 
 /-- The regenerated facts: `errRetryableOnNewConn` is exactly `ErrConnDead ∨ ErrEngineClosed`, an
 un-acknowledged forced close reports the cause `ErrEngineClosed`, an acknowledged one reports the plain
-context error, `invokeConn` waits for `connChanged` / the client context, `replaceConn` signals, and a failed transport send is mapped to `pool.ErrConnDead` by
-`manager.Conn.Invoke` (so it does not surface to the caller). -/
+context error, `invokeConn` waits for `connChanged` / the client context, `replaceConn` signals, a
+failed transport send is mapped to `pool.ErrConnDead`; and, interpreted from the regenerated statement
+order: `conn` and `connChanged` are read in one `connMux` critical section before `conn.Invoke`,
+`manager.Conn.Run` defers `dead.Signal()` before it runs the protocol, `waitSession` watches `dead`. -/
 theorem source_facts :
     cfgOfSource = { unackedRetryable := true, ackedNotRetryable := true, closeUnblocks := true,
-                    sendErrorSurfaces := false } := by decide
+                    sendErrorSurfaces := false, snapshotBeforeInvoke := true, deadAlwaysSignalled := true } := by
+  decide
+
+theorem snap_source : cfgOfSource.snapshotBeforeInvoke = true := by decide
 
 /-- **Acknowledged requests are not sent again**: once the client has processed the acknowledgement
 (or the result) of request `r` on connection epoch `a`, the server never receives a copy of `r` on a
@@ -32,26 +39,57 @@ theorem unacked_retried_once_per_conn (n : Nat) (s : State) (h : Reachable cfgOf
     s.arrivals.Nodup :=
   (inv_reachable h).nodup
 
-/-- **An un-acknowledged request whose connection died is re-sent, not failed**: while the client is
-not closed, `Invoke` cannot return an error for a request that is waiting for a connection or was sent
-but not acknowledged; the engine fails it over (`fail`) and the send on the new epoch is enabled. -/
+/-- **An un-acknowledged request is never failed while the client is open**: `Invoke` cannot return an
+error for a request that has not been acknowledged (about to pick a connection, inside `conn.Invoke`
+waiting for the session or writing, written but not acknowledged, parked for a reconnect). -/
 theorem unacked_not_failed (s : State) (r : Nat) (q : Req) (hq : s.reqs[r]? = some q) (hc : s.closed = false)
-    (hp : q.phase = .waitConn ∨ ∃ k, q.phase = .sent k) :
-    step cfgOfSource s (.retErr r) = none ∧
-    (∀ k, q.phase = .sent k → s.alive = false ∨ k < s.epoch →
-       ∃ s', step cfgOfSource s (.fail r) = some s' ∧
-         ∃ q', s'.reqs[r]? = some q' ∧ q'.phase = .waitConn) := by
+    (hp : q.phase = .ready ∨ (∃ k, q.phase = .bound k) ∨ (∃ k, q.phase = .sent k) ∨ (∃ w, q.phase = .parked w)) :
+    step cfgOfSource s (.retErr r) = none ∧ step cfgOfSource s (.sendFail r) = none := by
+  rcases hp with hp | ⟨k, hp⟩ | ⟨k, hp⟩ | ⟨w, hp⟩ <;> simp [step, hq, hp, hc, source_facts]
+
+/-- **Fail-over is always possible**: a request inside `conn.Invoke` on a connection that is dead —
+written but not acknowledged, or still waiting for the session of a connection that died before it was
+initialised, or about to write on it — gets a retryable error (`fail` is enabled) and parks. -/
+theorem failed_over (s : State) (r : Nat) (q : Req) (hq : s.reqs[r]? = some q) (k : Nat)
+    (hp : q.phase = .sent k ∨ q.phase = .bound k) (hd : connDead s k = true) :
+    ∃ s', step cfgOfSource s (.fail r) = some s' ∧ s'.reqs[r]? = some { q with phase := .parked k } := by
   have hlt := lt_of_getElem? hq
-  refine ⟨?_, ?_⟩
-  · rcases hp with hp | ⟨k, hp⟩ <;> simp [step, hq, hp, hc]
-  · intro k hk hd
-    refine ⟨_, by simp [step, hq, hk, hd, source_facts]; rfl, ?_⟩
-    exact ⟨{ q with phase := .waitConn }, by simp [setReq, hlt], rfl⟩
+  rcases hp with hp | hp
+  · exact ⟨_, by simp [step, hq, hp, hd, source_facts]; rfl, by simp [setReq, hlt]⟩
+  · by_cases hi : k ∈ s.inited
+    · exact ⟨_, by simp [step, hq, hp, hd, hi, source_facts]; rfl, by simp [setReq, hlt]⟩
+    · exact ⟨_, by simp [step, hq, hp, hd, hi, source_facts]; rfl, by simp [setReq, hlt]⟩
+
+/-- **A parked invocation is woken by the replacement**: in every reachable state, an invocation parked
+for a reconnect waits on the `connChanged` channel of an epoch that is already over as soon as a live
+connection is in place — so it can pick the new connection (`bind` is enabled); it never waits for a
+"further" replacement of a healthy connection. -/
+theorem parked_wakes (n : Nat) (s : State) (h : Reachable cfgOfSource n s) (r : Nat) (q : Req)
+    (hq : s.reqs[r]? = some q) (w : Nat) (hp : q.phase = .parked w) (ha : s.alive = true) :
+    w < s.epoch ∧ ∃ s', step cfgOfSource s (.bind r) = some s' := by
+  have hI := inv_reachable h
+  obtain ⟨hle, hal, _⟩ := ((hI.req r q hq).2.2.2.2.2.2.2.1) w hp
+  have hlt : w < s.epoch := by
+    rcases Nat.lt_or_ge w s.epoch with h' | h'
+    · exact h'
+    · have := hal snap_source (Nat.le_antisymm hle h')
+      rw [ha] at this; cases this
+  exact ⟨hlt, _, by simp [step, hq, hp, hlt]; rfl⟩
+
+/-- **A request on a healthy connection can be written**: bound to the current, alive, initialised
+connection, its write (`arr`) is enabled — it has not been written on this epoch before. -/
+theorem bound_can_send (n : Nat) (s : State) (h : Reachable cfgOfSource n s) (r : Nat) (q : Req)
+    (hq : s.reqs[r]? = some q) (hp : q.phase = .bound s.epoch) (hi : s.epoch ∈ s.inited) :
+    ∃ s', step cfgOfSource s (.arr r s.epoch) = some s' := by
+  have hI := inv_reachable h
+  have hno : (r, s.epoch) ∉ s.arrivals := by
+    intro hm
+    have := ((hI.req r q hq).2.2.2.2.2.2.1 s.epoch hp).2 s.epoch hm
+    omega
+  exact ⟨_, by simp [step, hq, hp, hi, hno]; rfl⟩
 
 /-- **Errors are returned only for acknowledged requests whose connection was lost, or because the
-client was closed**: every request for which `Invoke` returned an error either had its acknowledgement
-processed by the client before the connection died (it must not be sent again), or the client was closed.
-In particular a request that the server had not acknowledged is never failed while the client is open. -/
+client was closed**. -/
 theorem error_only_if_acked_or_closed (n : Nat) (s : State) (h : Reachable cfgOfSource n s) (r : Nat) (q : Req)
     (hq : s.reqs[r]? = some q) (hp : q.phase = .doneErr) :
     (q.reason = .ackedLost ∧ q.ackSeen ≠ none) ∨ (q.reason = .closed ∧ s.closed = true) := by
@@ -62,14 +100,21 @@ theorem error_only_if_acked_or_closed (n : Nat) (s : State) (h : Reachable cfgOf
   · exact Or.inr h'
   · exact absurd h' hne
 
-/-- Pre-fix behaviour (repaired by 958ee5b91): while a failed transport send surfaced, a request issued
-after the transport died but before the client noticed was returned to the caller with the write error —
-never sent, never acknowledged, client not closed. -/
-theorem unsent_error_counterexample :
-    ∃ s, run { cfgOfSource with sendErrorSurfaces := true } (init 1) [.inv 0, .kill, .sendFail 0] = some s ∧
-      s.closed = false ∧
-      s.reqs[0]? = some { phase := .doneErr, reason := .sendError, ackSeen := none } ∧ s.arrivals = [] ∧
-      holdsB s = false := ⟨_, rfl, by decide⟩
+/-- **A closed client returns**: once the client is closed, every invocation that has not returned
+yet can return (with an error) — it does not wait for a reconnect, and no reconnect happens. -/
+theorem closed_client_returns (s : State) (hc : s.closed = true) (r : Nat) (q : Req)
+    (hq : s.reqs[r]? = some q) (hp : q.phase ≠ .idle ∧ q.phase ≠ .doneOk ∧ q.phase ≠ .doneErr) :
+    (∃ s', step cfgOfSource s (.retErr r) = some s') ∧ step cfgOfSource s .reconnect = none := by
+  refine ⟨?_, by simp [step, hc]⟩
+  cases hph : q.phase with
+  | idle => exact absurd hph hp.1
+  | doneOk => exact absurd hph hp.2.1
+  | doneErr => exact absurd hph hp.2.2
+  | ready => exact ⟨_, by simp [step, hq, hph, hc, source_facts]; rfl⟩
+  | bound k => exact ⟨_, by simp [step, hq, hph, hc, source_facts]; rfl⟩
+  | sent k => exact ⟨_, by simp [step, hq, hph, hc, source_facts]; rfl⟩
+  | acked k => exact ⟨_, by simp [step, hq, hph, hc, source_facts]; rfl⟩
+  | parked w => exact ⟨_, by simp [step, hq, hph, hc, source_facts]; rfl⟩
 
 /-- The driver's executable monitor holds in every reachable state. -/
 theorem holdsB_reachable (n : Nat) (s : State) (h : Reachable cfgOfSource n s) : holdsB s = true := by
@@ -80,8 +125,8 @@ theorem holdsB_reachable (n : Nat) (s : State) (h : Reachable cfgOfSource n s) :
   intro r _
   split
   · rename_i q hq
-    rw [Bool.and_eq_true]
-    refine ⟨?_, ?_⟩
+    rw [Bool.and_eq_true, Bool.and_eq_true]
+    refine ⟨⟨?_, ?_⟩, ?_⟩
     · split
       · rename_i a ha
         rw [List.all_eq_true]
@@ -95,32 +140,61 @@ theorem holdsB_reachable (n : Nat) (s : State) (h : Reachable cfgOfSource n s) :
     · by_cases hp : q.phase = .doneErr
       · rcases error_only_if_acked_or_closed n s h r q hq hp with ⟨h', _⟩ | ⟨h', _⟩ <;> simp [h']
       · simp [hp]
+    · split
+      · rename_i w hp
+        cases ha : s.alive with
+        | false => simp
+        | true => simp [(parked_wakes n s h r q hq w hp ha).1]
+      · rfl
   · rfl
 
-/-- **A closed client returns**: once the client is closed, every invocation that has not returned
-yet can return (with an error) — it does not wait for a reconnect, and no reconnect happens. -/
-theorem closed_client_returns (s : State) (hc : s.closed = true) (r : Nat) (q : Req)
-    (hq : s.reqs[r]? = some q) (hp : q.phase ≠ .idle ∧ q.phase ≠ .doneOk ∧ q.phase ≠ .doneErr) :
-    (∃ s', step cfgOfSource s (.retErr r) = some s') ∧ step cfgOfSource s .reconnect = none := by
-  refine ⟨?_, by simp [step, hc]⟩
-  cases hph : q.phase with
-  | idle => exact absurd hph hp.1
-  | doneOk => exact absurd hph hp.2.1
-  | doneErr => exact absurd hph hp.2.2
-  | waitConn => exact ⟨_, by simp [step, hq, hph, hc, source_facts]; rfl⟩
-  | sent k => exact ⟨_, by simp [step, hq, hph, hc, source_facts]; rfl⟩
-  | acked k => exact ⟨_, by simp [step, hq, hph, hc, source_facts]; rfl⟩
+/-! Counterexamples: each regenerated fact is load-bearing. -/
+
+/-- Pre-fix behaviour (repaired by 958ee5b91): while a failed transport send surfaced, a request issued
+after the transport died but before the client noticed was returned to the caller with the write error. -/
+theorem unsent_error_counterexample :
+    ∃ s, run { cfgOfSource with sendErrorSurfaces := true } (init 1) [.inv 0, .bind 0, .init, .kill, .sendFail 0] = some s ∧
+      s.closed = false ∧
+      s.reqs[0]? = some { phase := .doneErr, reason := .sendError, ackSeen := none } ∧ s.arrivals = [] ∧
+      holdsB s = false := ⟨_, rfl, by decide⟩
+
+/-- Lost wake-up: if `connChanged` is read only after `conn.Invoke` failed, an invocation that fails
+after the replacement already happened parks on the NEW channel and is never woken although a healthy
+connection is in place. -/
+theorem late_snapshot_counterexample :
+    ∃ s, run { cfgOfSource with snapshotBeforeInvoke := false } (init 1)
+        [.inv 0, .bind 0, .init, .arr 0 0, .kill, .reconnect, .init, .fail 0] = some s ∧
+      s.alive = true ∧ s.reqs[0]? = some { phase := .parked 1, reason := .none, ackSeen := none } ∧
+      step { cfgOfSource with snapshotBeforeInvoke := false } s (.bind 0) = none ∧ holdsB s = false :=
+  ⟨_, rfl, by decide⟩
+
+/-- If `Run` does not signal `dead` when the connection fails before its initialisation, an invocation
+waiting for that connection's session is stuck: no fail-over, no write, no return. -/
+theorem dead_unsignalled_counterexample :
+    ∃ s, run { cfgOfSource with deadAlwaysSignalled := false } (init 1)
+        [.inv 0, .bind 0, .init, .arr 0 0, .kill, .fail 0, .reconnect, .bind 0, .kill, .reconnect, .init] = some s ∧
+      s.reqs[0]? = some { phase := .bound 1, reason := .none, ackSeen := none } ∧ s.alive = true ∧
+      step { cfgOfSource with deadAlwaysSignalled := false } s (.fail 0) = none ∧
+      step { cfgOfSource with deadAlwaysSignalled := false } s (.arr 0 2) = none ∧
+      step { cfgOfSource with deadAlwaysSignalled := false } s (.retErr 0) = none := ⟨_, rfl, by decide⟩
 
 /-! Non-vacuity -/
 
 /-- Kill after send, before the ack: the request is failed over, re-sent on epoch 1 and answered. -/
 example : ∃ s, Reachable cfgOfSource 1 s ∧ s.reqs.map (·.phase) = [.doneOk] ∧ s.arrivals = [(0, 1), (0, 0)] ∧
     holdsB s = true :=
-  ⟨_, ⟨[.inv 0, .arr 0 0, .kill, .fail 0, .reconnect, .arr 0 1, .res 0 1, .seen 0, .retOk 0], rfl⟩, by decide⟩
+  ⟨_, ⟨[.inv 0, .bind 0, .init, .arr 0 0, .kill, .fail 0, .reconnect, .bind 0, .init, .arr 0 1, .res 0 1, .seen 0, .retOk 0],
+    rfl⟩, by decide⟩
+
+/-- The replacement connection dies before it is initialised while the request waits for its session:
+it fails over once more and is answered on epoch 2. -/
+example : ∃ s, Reachable cfgOfSource 1 s ∧ s.reqs.map (·.phase) = [.doneOk] ∧ s.arrivals = [(0, 2), (0, 0)] :=
+  ⟨_, ⟨[.inv 0, .bind 0, .init, .arr 0 0, .kill, .fail 0, .reconnect, .bind 0, .kill, .fail 0, .reconnect, .bind 0,
+        .init, .arr 0 2, .res 0 2, .seen 0, .retOk 0], rfl⟩, by decide⟩
 
 /-- Kill after the ack was processed: error to the caller, no second copy. -/
 example : ∃ s, Reachable cfgOfSource 1 s ∧ s.reqs.map (·.phase) = [.doneErr] ∧ s.arrivals = [(0, 0)] ∧
-    holdsB s = true ∧ step cfgOfSource s (.arr 0 1) = none :=
-  ⟨_, ⟨[.inv 0, .arr 0 0, .ack 0 0, .seen 0, .kill, .retErr 0, .reconnect], rfl⟩, by decide⟩
+    holdsB s = true :=
+  ⟨_, ⟨[.inv 0, .bind 0, .init, .arr 0 0, .ack 0 0, .seen 0, .kill, .retErr 0, .reconnect], rfl⟩, by decide⟩
 
 end TdModel.C29
